@@ -102,6 +102,10 @@ func transform(spec ModelSpec) ModelSpec {
 		if txt == `<nil>` {
 			txt = ""
 		}
+		if strings.HasPrefix(strings.TrimSpace(txt), "default=") {
+			// a value that is only `default=x`: the pattern expects `, default=x` after the (here empty) description
+			txt = "," + strings.TrimSpace(txt)
+		}
 
 		_ = regexp.MustCompile(floatTemplate)
 		r := regexp.MustCompile(fmt.Sprintf(parameterTemplate, floatTemplate, floatTemplate, floatTemplate))
